@@ -3,6 +3,12 @@ from . import rules_pc as pc
 from . import rules_cf as cf
 from . import rules_sg as sg
 from . import rules_fr as fr
+from . import rules_lv as lv
+from . import rules_ss as ss
+from . import rules_mk as mk
+from . import rules_pai as pa
+from . import rules_fx as fx
+from . import rules_op as op
 
 
 def R(fn, **kw):
@@ -49,9 +55,12 @@ PROPS['C08'] = {
 }
 
 PROPS['C09'] = {
-    'rules': [R(pc.rule_PC5), R(pc.rule_PC6), R(pc.rule_PC4), R(pc.rule_PC1), R(pc.rule_PC2)],
-    'floors': {'PC5': 9, 'PC6': 8, 'PC4': 6, 'PC1': 40},
-    'explanation': 'Decides: both sides label a message with the same expression and key the rendezvous buffer by it (PC5); '
+    'rules': [R(pc.rule_PC5), R(pc.rule_PC6), R(pc.rule_PC4), R(pc.rule_PC1), R(pc.rule_PC2), R(ss.rule_SS6), R(fr.rule_FR3)],
+    'floors': {'PC5': 9, 'PC6': 8, 'PC4': 6, 'PC1': 40, 'SS6': 9, 'FR3': 5},
+    'explanation': 'Decides: every message-layer coroutine sends exactly to the parties that wait for it -- the (sender, receiver) relation of its send '
+                   'sites equals that of its receive sites (SS6: no message that nobody receives, no receive that is never matched); a delivered '
+                   'payload / a waiting receive is removed from the label-keyed rendezvous by the other side (FR3: consumed exactly once, nothing left '
+                   'behind); both sides label a message with the same expression and key the rendezvous buffer by it (PC5); '
                    'inside one coroutine epoch no two messages of one direction address the same peer (PC6); sibling forks get '
                    'distinct counters (PC4); labels are taken only under a counter owned by the protocol instance (PC1, PC2).',
     'assumptions': ['_hop is collision free', 'sender/receiver lists passed by the program contain no duplicates (API precondition)'],
@@ -120,7 +129,6 @@ PROPS['C36']['level'] = (
     'output recombines only after all requested shares arrived and nothing substitutes a missing share, disconnects surface. Crash '
     'points and schedules are not enumerated (that would be a different technique).')
 
-from . import rules_lv as lv
 
 PROPS['C35'] = {
     'rules': [R(lv.rule_LV1), R(lv.rule_LV2), R(lv.rule_LV3), R(lv.rule_LV4), R(fr.rule_CR4)],
@@ -140,8 +148,6 @@ PROPS['C09']['floors'].update({'LV3': 7, 'LV1': 7})
 PROPS['C09']['explanation'] += (' No receive is left unmatched at shutdown: shutdown waits unconditionally for all started coroutines '
                                 'before synchronising and closing (LV1-LV3).')
 
-from . import rules_ss as ss
-from . import rules_mk as mk
 
 # coroutines whose messages must be labelled under a counter of their own, or they are matched with another call's receives
 ROUTING = ['Runtime.transfer', 'Runtime.input', 'Runtime._distribute', 'Runtime.output', 'Runtime._reshare']
@@ -214,7 +220,6 @@ PROPS['C19'] = {
              'message of an output/transfer can be addressed to a party outside the receivers.',
 }
 
-from . import rules_pai as pa
 
 INT_PROTOCOLS = ['mul', 'prod', 'all', 'in_prod', 'scalar_mul', '_if_else_list', '_if_swap_list', 'matrix_prod', 'sgn', 'lsb', '_mod',
                  'trailing_zeros', 'is_zero_public', '_is_zero', 'gauss', 'schur_prod', 'random_bits', 'to_bits', 'trunc', 'mod', '_convert',
@@ -255,14 +260,17 @@ PROPS['C18'] = {
 }
 PROPS['C01'] = {
     'rules': [R(pa.rule_SS1, scope=INT_PROTOCOLS), R(pa.rule_NL1, scope=INT_PROTOCOLS), R(ss.rule_SS4), R(ss.rule_SS6), R(pc.rule_PC9, scope=['Runtime.' + x for x in INT_PROTOCOLS] + ['Runtime._randoms']),
-              R(pc.rule_PC1, scope=['Runtime.' + x for x in INT_PROTOCOLS]), R(ss.rule_PR1)],
-    'floors': {'SS1': 25, 'NL1': 12, 'SS4': 9, 'SS6': 9, 'PC9': 8, 'PC1': 20, 'PR1': 12},
+              R(pc.rule_PC1, scope=['Runtime.' + x for x in INT_PROTOCOLS]), R(ss.rule_PR1), R(pa.rule_MK5), R(op.rule_OP6)],
+    'floors': {'SS1': 25, 'NL1': 12, 'SS4': 9, 'SS6': 9, 'PC9': 8, 'PC1': 20, 'PR1': 12, 'MK5': 5, 'OP6': 14},
     'explanation': 'Plumbing clauses for the integer protocols (mul, prod, all, in_prod, scalar_mul, if_else/if_swap lists, matrix_prod, sgn, lsb, _mod, '
                    'trailing_zeros, is_zero_public, _is_zero, gauss, ...): every product of two shared values is degree-reduced or opened with 2t '
                    'before reuse (SS1); shares are only combined linearly -- no bitwise or comparison operator is applied to a share as if it were '
                    'the value (NL1); recombination uses the dealt points and each receiver collects exactly the shares sent to it (SS4, SS6); PRSS '
                    'inputs are fresh and common (PC9); each of these coroutines exchanges messages only under a program counter of its own (PC1); '
-                   'the PRSS zero-sharings that re-randomise opened products have degree 2t with constant term 0 (PR1). These are the parts '
+                   'the PRSS zero-sharings that re-randomise opened products have degree 2t with constant term 0 (PR1); the additive masks of the '
+                   'masked-opening protocols are sums of bound // (number of contributions) sized terms, so that masked values do not wrap around the '
+                   'modulus (MK5); comparisons and arithmetic reached through NumPy scalars on the left (np.less(10, a)) are delegated in reflected form (OP6). '
+                   'These are the parts '
                    'that differ between m = 1 and m > 1.',
     'assumptions': ['the integer identities of the protocols (Toft comparison, lsb, divsteps) are correct as algorithms: not decided here'],
     'level': 'Static abstract interpretation and routing analysis restricted to the integer protocol coroutines. Decides necessary conditions that the '
@@ -280,7 +288,6 @@ PROPS['C04'] = {
     'level': 'Static abstract interpretation of the field protocol coroutines; the small-field lifting clause is checked under C39.',
 }
 
-from . import rules_fx as fx
 
 PROPS['C03'] = {
     'rules': [R(fx.rule_FX1), R(fx.rule_FX2), R(fx.rule_FX3), R(fx.rule_FX4), R(fx.rule_FX5)],
@@ -313,7 +320,6 @@ PROPS['C02'] = {
              'step of the right size per product. Numeric error bounds are not claimed.',
 }
 
-from . import rules_op as op
 
 PROPS['C17'] = {
     'rules': [R(cf.rule_PF1)],
@@ -380,12 +386,13 @@ PROPS['C28'] = {
     'level': 'Static convention analysis of mpyc.secgroups -- exactly the recombination trick the single-party suite cannot exercise.',
 }
 PROPS['C37'] = {
-    'rules': [R(sg.rule_TC1), R(sg.rule_SG1), R(sg.rule_SG2), R(pc.rule_PC1), R(pa.rule_SS1), R(pa.rule_NL1), R(ss.rule_SS3), R(ss.rule_SS7), R(ss.rule_PR1), R(fx.rule_FX1), R(fx.rule_FX3)],
-    'floors': {'TC1': 10, 'SG1': 10, 'SG2': 1, 'PC1': 40, 'SS1': 60, 'NL1': 25, 'SS3': 9, 'SS7': 8, 'PR1': 12, 'FX1': 60, 'FX3': 15},
+    'rules': [R(sg.rule_TC1), R(sg.rule_SG1), R(sg.rule_SG2), R(pc.rule_PC1), R(pa.rule_SS1), R(pa.rule_NL1), R(ss.rule_SS3), R(ss.rule_SS7), R(ss.rule_PR1), R(fx.rule_FX1), R(fx.rule_FX3), R(op.rule_OP6)],
+    'floors': {'TC1': 10, 'SG1': 10, 'SG2': 1, 'PC1': 40, 'SS1': 60, 'NL1': 25, 'SS3': 9, 'SS7': 8, 'PR1': 12, 'FX1': 60, 'FX3': 15, 'OP6': 14},
     'explanation': 'Sibling and plumbing clauses for code the suite cannot even import (no numpy): array coroutines agree with their scalar siblings on '
                    'mask bounds (as linear forms), opening thresholds, option/field-size case splits, PRSS calls and head-room (SG1); a type that is an '
                    'array type is never tested against a scalar secure class (TC1); integral= is passed to polymorphic constructors only under a '
-                   'fixed-point guard (SG2); the np_* coroutines satisfy the pc, degree, linearity and flag rules (PC1, SS1, NL1, FX1, FX3); array '
+                   'fixed-point guard (SG2); a NumPy ufunc applied to (plain, secure) operands is delegated in reflected form -- mirrored comparison or '
+                   '__r<op>__ method, exchanged operands only for symmetric operators (OP6); the np_* coroutines satisfy the pc, degree, linearity and flag rules (PC1, SS1, NL1, FX1, FX3); array '
                    'sharing, recombination and PRSS agree with the list versions (SS3, SS7, PR1).',
     'assumptions': ['numpy semantics of the array operations (broadcasting, matmul) are as documented'],
     'level': 'Static sibling-agreement and typestate analysis of the np_* half of the runtime. Found three genuine defects (np_roll without pc, '
